@@ -6,9 +6,14 @@ package main
 
 import (
 	"fmt"
+	"io"
 	"os"
+	"path/filepath"
 	"strings"
 	"time"
+
+	"github.com/pkg/sftp"
+	"github.com/spf13/afero/sftpfs"
 )
 
 func tm(sec int) time.Time { return time.Unix(int64(sec), 0) }
@@ -243,6 +248,7 @@ func runC19(c *Ctx) {
 		return
 	}
 	runC19Symlinks(c)
+	runC19OSServer(c)
 	r := c.Rng
 	nSeq, nMal, exLen := 260, 60, 2
 	if c.Tier == "thorough" {
@@ -337,4 +343,115 @@ func runC19Symlinks(c *Ctx) {
 		}
 	}
 	c.Extra["symlinks"] = fmt.Sprintf("%d MkdirAll calls on names occupied by dangling links, links to directories and loops, judged by a second client's Stat (oracle only)", n)
+}
+
+// A server that serves the real file system (sftp.NewServer) is strict about spellings that the
+// in-memory handler cleans away (a trailing separator after the name of a regular file, ...).
+// "Rename, remove and directory creation through sftpfs return and produce exactly what the
+// server holds": the same call with the same spelling through sftpfs and through a raw client on
+// a twin tree must agree in success/failure and leave the same tree (oracle only).
+func runC19OSServer(c *Ctx) {
+	top, err := os.MkdirTemp("", "afc19os")
+	if err != nil {
+		c.Extra["os-server"] = "no temporary directory: scenario skipped"
+		return
+	}
+	defer os.RemoveAll(top)
+	var conns []rwc
+	mk := func() *sftp.Client {
+		cr, sw := io.Pipe()
+		sr, cw := io.Pipe()
+		conn := rwc{sr, sw}
+		srv, err := sftp.NewServer(conn)
+		if err != nil {
+			panic(err)
+		}
+		go srv.Serve()
+		conns = append(conns, conn)
+		cl, err := sftp.NewClientPipe(cr, cw)
+		if err != nil {
+			panic(err)
+		}
+		return cl
+	}
+	c1, c2 := mk(), mk()
+	defer func() {
+		// server side first: closing its pipe ends is what ends the clients' receive loops
+		for _, x := range conns {
+			x.Close()
+		}
+		c1.Close()
+		c2.Close()
+	}()
+	fs := sftpfs.New(c1)
+	tree := func(root string) string {
+		var out []string
+		filepath.Walk(root, func(p string, fi os.FileInfo, err error) error {
+			if err != nil || p == root {
+				return nil
+			}
+			k := "f"
+			if fi.IsDir() {
+				k = "d"
+			}
+			out = append(out, strings.TrimPrefix(p, root)+":"+k)
+			return nil
+		})
+		return strings.Join(out, ",")
+	}
+	type opT struct {
+		name string
+		a, b string
+	}
+	names := []string{"/d/f", "/d/f/", "/d/f//", "/d", "/d/", "/d/e", "/d/e/", "/d//e", "/d/./f", "/d/e/../f", "/nope", "/nope/", "/d/f/x", "/g", "/g/"}
+	var ops []opT
+	for _, n := range names {
+		ops = append(ops, opT{"Remove", n, ""}, opT{"Mkdir", n, ""}, opT{"Stat", n, ""})
+		ops = append(ops, opT{"Rename", n, "/z"}, opT{"Rename", "/g", n})
+	}
+	n := 0
+	for i, op := range ops {
+		var res, trees [2]string
+		for side := 0; side < 2; side++ {
+			root := filepath.Join(top, fmt.Sprintf("t%d_%d", i, side))
+			for _, d := range []string{"/d/e"} {
+				os.MkdirAll(root+d, 0o755)
+			}
+			for _, f := range []string{"/d/f", "/g"} {
+				os.WriteFile(root+f, []byte("hello"), 0o644)
+			}
+			var e error
+			a, b := root+op.a, root+op.b
+			switch {
+			case op.name == "Remove" && side == 0:
+				e = fs.Remove(a)
+			case op.name == "Remove":
+				e = c2.Remove(a)
+			case op.name == "Mkdir" && side == 0:
+				e = fs.Mkdir(a, 0o755)
+			case op.name == "Mkdir":
+				e = c2.Mkdir(a)
+			case op.name == "Stat" && side == 0:
+				_, e = fs.Stat(a)
+			case op.name == "Stat":
+				_, e = c2.Stat(a)
+			case op.name == "Rename" && side == 0:
+				e = fs.Rename(a, b)
+			default:
+				e = c2.Rename(a, b)
+			}
+			res[side] = "ok"
+			if e != nil {
+				res[side] = "err"
+			}
+			trees[side] = tree(root)
+			os.RemoveAll(root)
+		}
+		n++
+		c.Count("osserver." + op.name + "." + res[1])
+		if res[0] != res[1] || trees[0] != trees[1] {
+			c.Oracle("FAIL oss%d os-server:%s:differs-from-server %s(%q,%q) through sftpfs: %s, tree %s; the server itself (raw client): %s, tree %s", i, op.name, op.name, op.a, op.b, res[0], trees[0], res[1], trees[1])
+		}
+	}
+	c.Extra["os-server"] = fmt.Sprintf("%d calls (Remove, Mkdir, Stat, Rename x %d spellings: trailing and doubled separators, dot elements, names below a regular file) against sftp.NewServer over a temporary directory, each compared with the same request sent by a raw client on a twin tree (oracle only)", n, len(names))
 }
